@@ -129,3 +129,25 @@ func (g *G) genSelEquiv(id string) *History {
 }
 
 func splitBar(v string) []string { return strings.Split(v, "|") }
+
+// genTrailerNoCache (fifth hunt): a chunked reply whose trailer section carries a field that the response's own
+// qualified no-cache names. Served from the store without validation, the named field is withheld wherever the
+// origin had put it — header section or trailer section; the other trailer fields are served as sent.
+func (g *G) genTrailerNoCache(id string) *History {
+	h := &History{ID: id, Prop: g.prop, Class: "trailer-no-cache", Backend: pick(g, "mem", "mem", "fs", "fsenc"), Logger: "discard"}
+	url := "http://a.test/tnc"
+	named := pick(g, `no-cache="X-Token"`, `no-cache="x-token, X-Token-Hdr"`, `no-cache="X-Token-Hdr"`, `no-cache="X-Other"`)
+	cc := pick(g, "max-age=600, ", "max-age=5, stale-while-revalidate=600, ", "max-age=5, stale-if-error=600, ") + named
+	rp := Reply{Status: 200, BodyFail: -1, Body: "tb", Chunked: true,
+		Hdr:     Hdr{{"Date", dateAt(0, 0)}, {"Cache-Control", cc}, {"X-Token-Hdr", "h1"}, {"Etag", `"t1"`}},
+		Trailer: Hdr{{"X-Token", "secret-1"}, {"X-Checksum", "abc"}}}
+	h.Ops = append(h.Ops, Op{Op: "req", AtNs: 0, Method: "GET", URL: url, Replies: []Reply{rp}})
+	at := pick(g, 2*sec, 10*sec, 30*sec)
+	for i := 0; i < 1+g.r.Intn(2); i++ {
+		// later: a hit, a stale serve under stale-while-revalidate (background 304), or stale-if-error after a 503
+		rep := Reply{Status: pick(g, 304, 304, 503), BodyFail: -1, Hdr: Hdr{{"Date", dateAt(at, 0)}, {"Etag", `"t1"`}}}
+		h.Ops = append(h.Ops, Op{Op: "req", AtNs: at, Method: "GET", URL: url, Replies: []Reply{rep}})
+		at += pick(g, 2*sec, 10*sec)
+	}
+	return h
+}
